@@ -24,6 +24,12 @@ func H01() {
 	vAssume(n&(n-1) != 0)
 	T := vU64("T")
 	vAssume(T%uint64(n) == 0 && T <= 1<<32-1 && T+uint64(n) > 1<<32-1)
+	// Lemma, proved once by the solver from T's defining property: the threshold
+	// has the closed form 2^32-1 - (2^32-1) mod n. It is then an assumption of the
+	// per-word obligations below, which keeps each of them a linear query. (The
+	// closed form is not the oracle: it is derived from it.)
+	closed := uint64(uint32(0xFFFFFFFF - 0xFFFFFFFF%n))
+	vAssert(T == closed, "lemma: the largest multiple of n not exceeding 2^32-1 is 2^32-1 - (2^32-1) mod n")
 
 	var r uint32
 	panicked := vTry(func() { r = randomUint32n(n) })
